@@ -321,6 +321,29 @@ def run(prog, rep, tier='quick'):
                             elif integral is None:
                                 okint = None
                         idx = vals
+                    # origin and direction of the grid: position 0 of the axis is bin 0 (onesided, twosided) or bin -(NFFT//2)
+                    # (centerdc: -m for NFFT = 2m and 2m+1), and the bins go up by one per position -- the slots the conversions
+                    # write are counted from there
+                    if vals and bad is None:
+                        import sympy as sp
+                        first = -m if side == 'centerdc' else Aff(0)
+                        for e in vals:
+                            bi = sp.expand(sp.cancel(e[1] * N.to_sympy()))
+                            ls = [s_ for s_ in bi.free_symbols if s_.name in Aff.BOUNDS]
+                            if len(ls) != 1:
+                                continue
+                            lo_b, hi_b = Aff.BOUNDS[ls[0].name]
+                            if lo_b is None:
+                                continue
+                            step_b = sp.expand(bi.subs(ls[0], ls[0] + 1) - bi)
+                            b0 = sp.expand(bi.subs(ls[0], lo_b.to_sympy()))
+                            okb = sp.expand(b0 - first.to_sympy()) == 0 and step_b == 1
+                            if okb:
+                                rep.proved('axis', g.qname, label + ' origin', 'first value is bin %s, one bin up per position' % first, where)
+                            else:
+                                rep.violation('axis', g.qname, label + ' origin', 'the axis starts at bin %s and moves %s bin(s) per position; '
+                                              'the converted PSD has bin %s in slot 0 and the next bin in each following slot: values '
+                                              'and reported frequencies are shifted against each other' % (b0, step_b, first), where)
                     if not idx:
                         rep.undecided('axis', g.qname, label + ' grid', 'yield is not of the form index*df', where)
                     elif bad is not None:
